@@ -89,7 +89,8 @@ class Body:
                     if svs and ints:
                         return f"{ch.pick(svs, 'sv')}.{ch.pick(ints, 'sf')}"
                 if ch.draw(2, "ct_expr"):
-                    return f"comptime({ch.draw(5, 'c1')} + {ch.draw(5, 'c2')})"
+                    return ch.pick((f"comptime({ch.draw(5, 'c1')} + {ch.draw(5, 'c2')})",
+                                    "comptime(True + 0)", "comptime(int(1.0))"), "ct_int_form")
             if k == 11:
                 avs = self.vars_of(env, "array[int, 3]")
                 if avs:
@@ -116,7 +117,10 @@ class Body:
             if k < 3 and vs:
                 return ch.pick(vs, "ev")
             if k < 6:
-                return ch.pick(("0.5", "1.5", "2.25"), "flit")
+                # incl. values that compare (and hash) equal although they are different
+                # constants: 0.0 / -0.0 (the latter only arises at comptime)
+                return ch.pick(("0.5", "1.5", "2.25", "0.0", "comptime(-0.0)", "comptime(0.0)",
+                                "1.0", "comptime(True + 0.0)"), "flit")
             if k < 9:
                 op = ch.pick(("+", "-", "*"), "op")
                 return f"({self.expr(env, 'float', depth + 1)} {op} {self.expr(env, 'float', depth + 1)})"
@@ -460,6 +464,14 @@ def plant(b: Body, lines: list[str], env: dict, m: dict) -> list[str]:
             ins = [[f"{b.fresh('u')} = (1).nofield"]]
     else:
         ins = [[f"{b.fresh('u')} = undef_x"]]
+    # the k mistakes either go to k drawn top-level positions, or - so that they share one
+    # NON-entry block and scope - together into the body of a fresh if / for / while
+    if kind in ("undefined_name", "call_arity", "call_type", "qubit_leak", "qubit_double_use",
+                "unsolved_typevar", "bad_annotation", "unsolved_pair", "struct_field_unknown",
+                "uninferable_call") and ins and ch.draw(2, "mistakes_in_one_block"):
+        hdr = (f"if {b.expr(env, 'bool')}:", f"for {b.fresh('i')} in range(2):",
+               f"while {b.expr(env, 'bool')}:")[ch.draw(3, "mistake_block")]
+        ins = [[hdr] + ind([l for stmts in ins for l in stmts])]
     # insertion points: top level positions (kept in order)
     top = [i for i, l in enumerate(lines) if not l.startswith((" ", "else", "elif"))] \
         + [len(lines)]
@@ -600,7 +612,8 @@ class ProgGen:
             sigs.append(FnSig(f"{prefix}sums", [("x", "int"), ("c", "bool")], "int", "sumtypes"))
         if fams["ctlist"]:
             vals = ("[3, 1, 4]", "[1.5, 2.5]", "[[1, 2], [3, 4]]", "[\"a\", \"bb\"]",
-                    "[True, False]", "[(1, 2.0), (3, 4.0)]")
+                    "[True, False]", "[(1, 2.0), (3, 4.0)]", "[0.0, -0.0]", "[-0.0, 1.0]",
+                    "[1, 0]", "(-0.0, 0.0)")
             picked = [vals[(ch.draw(len(vals), "ctl_first") + j) % len(vals)]
                       for j in range(ch.rng_int(1, 4, "ctl_n"))]
             src += ["@guppy", f"def {prefix}ctl(i: int) -> int:"] + \
